@@ -388,6 +388,7 @@ def run(P, R, tier):
     parallel_kernels(P, R)
     task_isolation(P, R)
     thread_count_rules(P, R)
+    common.forward(P, R, 'C04', ['C04.b', 'C04.c'], 'C18.g', 'a cx query racing with the first build_sindex: the indexer works on ONE snapshot of the index and branches on the result it obtained', floor=2)
     # write-target injectivity of the packing tasks (shared with C10.c)
     from rules import C10
     sub = type(R)(R.prop, R.tier)
